@@ -78,29 +78,46 @@ Definition guard (t : table) (body : jv) : jv :=
   if wf_table t && negb (match t with [] => true | _ => false end) then body
   else JL [JC "OutOfModel" []; jnone; JL []].
 
-Definition run_children (fx : fixes) (tl : list (Z * Z * Z)) (gone goneb : list Z) (cache : option Z) (o : pobj) : jv :=
-  let t := mk_table tl in
+Definition run_children_t (fx : fixes) (t : table) (gone goneb : list Z) (cache : option Z) (o : pobj) : jv :=
   guard t (JL [ jout t o (jids t) (children_direct fx t gone o);
                 by_state t o (JC "Val" [jids t (spec_children t gone (o_pid o) (o_ident o))]);
                 tags t gone goneb cache o ]).
-
-Definition run_children_rec (fx : fixes) (tl : list (Z * Z * Z)) (gone goneb : list Z) (cache : option Z) (o : pobj) : jv :=
-  let t := mk_table tl in
+(* [dspec]: the demanded descendants when they are known in closed form (deep chains: the generic
+   climbs test is cubic there), else computed by [spec_descendants] *)
+Definition run_children_rec_t (fx : fixes) (t : table) (dspec : option (list Z)) (gone goneb : list Z) (cache : option Z) (o : pobj) : jv :=
   guard t (JL [ jfuel t o (children_rec fx (S (length t)) t gone o);
-                by_state t o (JC "Val" [jids t (spec_descendants t gone (o_pid o) (o_ident o))]);
+                by_state t o (JC "Val" [jids t (match dspec with Some l => l
+                                                | None => spec_descendants t gone (o_pid o) (o_ident o) end)]);
                 tags t gone goneb cache o ]).
-
-Definition run_parent (fx : fixes) (tl : list (Z * Z * Z)) (gone goneb : list Z) (cache : option Z) (o : pobj) : jv :=
-  let t := mk_table tl in
+Definition run_parent_t (fx : fixes) (t : table) (gone goneb : list Z) (cache : option Z) (o : pobj) : jv :=
   guard t (JL [ jout t o jpar (parent fx t gone cache o);
                 by_state t o (JC "Val" [jpar (spec_parent_v t gone (o_pid o) (o_ident o))]);
                 tags t gone goneb cache o ]).
-
-Definition run_parents (fx : fixes) (tl : list (Z * Z * Z)) (gone goneb : list Z) (cache : option Z) (o : pobj) : jv :=
-  let t := mk_table tl in
+Definition run_parents_t (fx : fixes) (t : table) (gone goneb : list Z) (cache : option Z) (o : pobj) : jv :=
   guard t (JL [ jfuel t o (parents fx (S (length t)) t gone goneb cache o);
                 by_state t o (match the_chain t gone goneb o with
                               | Some l => JC "Val" [jids t l]
                               | None => JC "Cyclic" []
                               end);
                 tags t gone goneb cache o ]).
+
+Definition run_children fx (tl : list (Z * Z * Z)) := run_children_t fx (mk_table tl).
+Definition run_children_rec fx (tl : list (Z * Z * Z)) := run_children_rec_t fx (mk_table tl) None.
+Definition run_parent fx (tl : list (Z * Z * Z)) := run_parent_t fx (mk_table tl).
+Definition run_parents fx (tl : list (Z * Z * Z)) := run_parents_t fx (mk_table tl).
+
+(* big tables generated from a seed: shape 0 = chain n, 1 = star n, 2 = comb n w; op 0 = children,
+   1 = children(recursive=True), 2 = parent, 3 = parents; caller = PID k (a fresh object) *)
+Definition big_table (shape : Z) (n w : Z) : table :=
+  if shape =? 0 then gen_chain (Z.to_nat n)
+  else if shape =? 1 then gen_star (Z.to_nat n)
+  else gen_comb (Z.to_nat n) (Z.to_nat w).
+Definition run_big (fx : fixes) (op shape n w k : Z) (cache : option Z) : jv :=
+  let t := big_table shape n w in
+  let ident := match lookup t k with Some e => kp_start e | None => 0 end in
+  let o := {| o_pid := k; o_ident := ident; o_ctime := None; o_known := true |} in
+  if op =? 0 then run_children_t fx t [] [] cache o
+  else if op =? 1 then
+    run_children_rec_t fx t (if shape =? 0 then Some (zseq (k + 1) (Z.to_nat (n - k))) else None) [] [] cache o
+  else if op =? 2 then run_parent_t fx t [] [] cache o
+  else run_parents_t fx t [] [] cache o.
